@@ -133,7 +133,10 @@ where
 
             let mut lengths = Coding::from_frequencies(BitsPerFragment(1), freqs).code_lengths();
 
-            let codes = craft_wm_codes(&mut lengths, sigma.as_());
+            let sigma: usize = sigma
+                .to_usize()
+                .expect("symbols are used as table indexes and must fit in usize");
+            let codes = craft_wm_codes(&mut lengths, sigma);
 
             let max_len = codes
                 .iter()
@@ -375,7 +378,8 @@ where
         }
 
         if COMPRESSED
-            && (symbol.as_() >= self.codes_encode.as_ref().unwrap().len()
+            && (symbol.to_usize().is_none()
+                || symbol.as_() >= self.codes_encode.as_ref().unwrap().len()
                 || self.codes_encode.as_ref().unwrap()[symbol.as_() as usize].len == 0)
         {
             return None;
@@ -435,7 +439,8 @@ where
         }
 
         if COMPRESSED
-            && (symbol.as_() >= self.codes_encode.as_ref().unwrap().len()
+            && (symbol.to_usize().is_none()
+                || symbol.as_() >= self.codes_encode.as_ref().unwrap().len()
                 || self.codes_encode.as_ref().unwrap()[symbol.as_() as usize].len == 0)
         {
             return None;
